@@ -59,6 +59,7 @@ def behaviours(ctx, sd, plan):
                 bs += g[:p.get("per_prefix", 2)]
             states += r.generated
             trans += r.generated
+        r.out, r.printed = "", []      # the raw output of a large run is several GB: drop it as soon as it is parsed
         if not bs:
             raise Inconclusive("BuilderAbs produced no behaviours for plan %d" % i)
         ctx.log("BuilderAbs plan %d (%s, %d ops): %d behaviours" % (i, p["mode"], p["maxops"], len(bs)))
